@@ -30,6 +30,11 @@ Fixpoint layout (b:nat) (p:option nat) (t:atree) : list hnode :=
     {| h_cls := c; h_id := i; h_val := v; h_ident := x; h_col := col; h_l := optr l (S b); h_r := optr r (S b + size l);
        h_p := p; h_cn := None; h_ct := Some [] |} :: layout (S b) (Some b) l ++ layout (S b + size l) (Some b) r
   end.
+Lemma layout_scratch t : forall b p n, In n (layout b p t) -> h_ct n = Some [] /\ h_cn n = None.
+Proof.
+  induction t as [|c i v x col l IHl r IHr]; intros b p n; cbn [layout]; [intros []|].
+  intros [<-|Hin]; [split; reflexivity|]. apply in_app_or in Hin. destruct Hin; eauto.
+Qed.
 Lemma layout_length t : forall b p, length (layout b p t) = size t.
 Proof. induction t as [|c i v x col l IHl r IHr]; intros b p; cbn [layout size length]; [reflexivity|]. rewrite app_length, IHl, IHr. reflexivity. Qed.
 
@@ -474,7 +479,9 @@ Theorem clone_from_root_full t h root node :
     rep h' (Some root) None t /\                                              (* the original is intact *)
     length h' = length h + size t /\
     oaddrs h' (Some (length h)) t = seq (length h) (size t) /\                (* the copy occupies exactly the fresh addresses *)
-    oaddrs h' (Some root) t = oaddrs h (Some root) t.                         (* the original its old ones *)
+    oaddrs h' (Some root) t = oaddrs h (Some root) t /\                       (* the original its old ones *)
+    sext h h' /\                                                              (* every old record is as before, up to the two scratch fields *)
+    (forall b n, length h <= b -> nth_error h' b = Some n -> h_ct n = Some [] /\ h_cn n = None).   (* the copy's scratch fields are clean *)
 Proof.
   intros R ND Hin DD. set (addrs := oaddrs h (Some root) t) in *.
   pose proof (size_le_heap _ _ _ _ R ND) as SZ. pose proof (rep_some_not_AE _ _ _ _ R) as NE.
@@ -526,9 +533,13 @@ Proof.
   - rewrite OL. assert (k < size t) by (rewrite <- (oaddrs_length t h (Some root) None R); apply nth_error_Some; fold addrs; congruence).
     rewrite nth_error_nth' with (d := 0) by (rewrite seq_length; lia). now rewrite seq_nth.
   - eapply rep_ext; [apply ext_app|]. eapply rep_sext; eauto.
-  - split; [rewrite app_length, layout_length; lia|]. split; [exact OL|].
-    rewrite (oaddrs_ext t old (old ++ layout (length h) None t) (Some root) None (ext_app old _) (rep_sext _ _ _ _ _ So R)).
-    apply (oaddrs_sext t h old _ None So R).
+  - split; [rewrite app_length, layout_length; lia|]. split; [exact OL|]. split.
+    + rewrite (oaddrs_ext t old (old ++ layout (length h) None t) (Some root) None (ext_app old _) (rep_sext _ _ _ _ _ So R)).
+      apply (oaddrs_sext t h old _ None So R).
+    + split.
+      * intros i n Hi. destruct (So i n Hi) as (n' & Hn' & E). exists n'. split; [|exact E].
+        rewrite nth_error_app1; [exact Hn'|]. apply nth_error_Some. congruence.
+      * intros b n Hb Hn. rewrite nth_error_app2 in Hn by lia. apply nth_error_In in Hn. eapply layout_scratch; eauto.
 Qed.
 Theorem clone_from_root_spec t h root node :
   rep h (Some root) None t -> NoDup (oaddrs h (Some root) t) -> In node (oaddrs h (Some root) t) ->
